@@ -2,10 +2,11 @@
    Only statements, closed by `exact` (short glue allowed), each followed by Print Assumptions.
    Model: Graph/Heap.v (node heap, WF), Graph/Ops.v (LinkedGraph methods), Graph/OpsSpec.v
    (set-level specification, domain guards, agree / holds_b).
-   Proofs: Graph/OpsBase.v OpsDfs.v OpsProofs.v OpsProofs2.v OpsChar.v OpsAcyclic.v OpsRefine.v OpsOracle.v OpsSink.v. *)
+   Proofs: Graph/OpsBase.v OpsDfs.v OpsProofs.v OpsProofs2.v OpsChar.v OpsAcyclic.v OpsRefine.v OpsOracle.v OpsSink.v OpsRefine2.v (update_node) OpsCleanup.v (clean-up) OpsRefine3.v
+   (update_subtree) OpsRefineAll.v. *)
 From Coq Require Import List Bool Arith.
 From GolemV Require Import Graph.Heap Graph.Ops Graph.OpsSpec Graph.OpsBase Graph.OpsDfs Graph.OpsProofs
-  Graph.OpsProofs2 Graph.OpsChar Graph.OpsAcyclic Graph.OpsRefine Graph.OpsOracle Graph.OpsSink.
+  Graph.OpsProofs2 Graph.OpsChar Graph.OpsAcyclic Graph.OpsRefine Graph.OpsOracle Graph.OpsSink Graph.OpsRefine2 Graph.OpsCleanup Graph.OpsRefine3 Graph.OpsRefineAll.
 Import ListNotations.
 
 (* ---------------------------------------------------------------- the oracle decides the stated notions *)
@@ -89,13 +90,13 @@ Theorem C04_op_refines_spec : forall s o s', WF (fst s) (snd s) -> guard_b s o =
 Proof. exact op_refines_spec. Qed.
 Print Assumptions C04_op_refines_spec.
 
-(* Full statement for disconnect_nodes with clean-up (not proved):
+(* (kept for stability of names; superseded by C04_disconnect_cleanup_refines_spec below)
+   Full statement for disconnect_nodes with clean-up:
      forall s p c s', WF (fst s) (snd s) -> guard_b s (ODisconnect p c true) = true ->
        run_op s (ODisconnect p c true) = Ok s' ->
        a_eqb (abs (fst s') (snd s')) (spec_disconnect_cleanup (abs (fst s) (snd s)) p c) = true.
-   Proved part: edges and labels of the remaining members are those of the specification and the
-   member list only shrinks.  Missing: the removed set equals the round-based least fixed point
-   cleanup_set (the correspondence check evaluates it on every observed step). *)
+   This first part: edges and labels of the remaining members are those of the specification and
+   the member list only shrinks. *)
 Theorem C04_disconnect_cleanup_refines_partial : forall h g p c h' g', WF h g -> In p g -> In c g ->
   disconnect_nodes h g p c true = Ok (h', g') ->
   incl g' g /\
@@ -104,15 +105,14 @@ Theorem C04_disconnect_cleanup_refines_partial : forall h g p c h' g', WF h g ->
 Proof. exact disconnect_cleanup_refines_partial. Qed.
 Print Assumptions C04_disconnect_cleanup_refines_partial.
 
-(* Full statements for update_node / update_subtree (T2, not proved):
+(* (kept for stability of names; superseded by C04_update_node_refines_spec and
+   C04_update_subtree_refines_spec below)  Full statements for update_node / update_subtree:
      ... run_op s (OUpdNode old new) = Ok s' -> spec_guard_b s (OUpdNode old new) = true ->
        a_eqb (abs (fst s') (snd s')) (spec_update_node (universe (fst s)) (abs (fst s) (snd s)) old new) = true
      ... run_op s (OUpdSub old new) = Ok s' ->
        a_eqb (abs (fst s') (snd s')) (spec_update_subtree (universe (fst s)) (abs (fst s) (snd s)) old new) = true
-   Proved parts: the exact parent sets after update_node, the composition of the result of
-   update_subtree, and "sort_nodes keeps the member set of an acyclic graph".  Missing: the
-   assembly (ancestor closure over the abstract edge relation of the specification = closure over
-   the heap after re-pointing; renaming of the copied sub-heap). *)
+   The pieces: the exact parent sets after update_node, the composition of the result of
+   update_subtree, and "sort_nodes keeps the member set of an acyclic graph". *)
 Theorem C04_sort_nodes_keeps_members : forall h g g', WF h g -> acyclic h g -> sort_nodes h g = Ok g' ->
   forall x, In x g' <-> In x g.
 Proof. exact sort_nodes_keeps. Qed.
@@ -140,6 +140,58 @@ Theorem C04_update_subtree_result_partial : forall h g old new, WF h g -> guard_
     (forall x, In x g -> In x g3 -> forall p, In p (pars h4 x) -> Bs p \/ In p (pars h x)).
 Proof. exact update_subtree_facts. Qed.
 Print Assumptions C04_update_subtree_result_partial.
+
+(* ---------------------------------------------------------------- T2  refinement of the remaining operations *)
+(* update_node: new takes the place of old in every edge, and the graph is completed with new and
+   its ancestors (for a new node that does not hang on the node it replaces) *)
+Theorem C04_update_node_refines_spec : forall h g old new h2 g3, WF h g ->
+  guard_b (h, g) (OUpdNode old new) = true -> spec_guard_b (h, g) (OUpdNode old new) = true ->
+  update_node h g old new = Ok (h2, g3) ->
+  a_eqb (abs h2 g3) (spec_update_node (universe h) (abs h g) old new) = true.
+Proof. intros. apply a_eqb_iff. eapply update_node_refines; eauto. Qed.
+Print Assumptions C04_update_node_refines_spec.
+
+(* update_subtree: old and its ancestors go, the children of old hang on the copy of new, the copy
+   of new's subtree comes; the copy of the i-th object of new's subtree (in the order the walk meets
+   them, new first) is the new object length h + i  (the isomorphism `rename`) *)
+Theorem C04_update_subtree_refines_spec : forall h g old new h4 g3, WF h g ->
+  guard_b (h, g) (OUpdSub old new) = true -> update_subtree h g old new = Ok (h4, g3) ->
+  a_eqb (abs h4 g3) (spec_update_subtree (universe h) (abs h g) old new) = true.
+Proof. intros. apply a_eqb_iff. eapply update_subtree_refines; eauto. Qed.
+Print Assumptions C04_update_subtree_refines_spec.
+
+(* _clean_up_leftovers started at p leaves exactly the members that are not in the least set
+   containing p (if all its children are in the set) and every parent of a node of the set all of
+   whose children are in the set ... *)
+Theorem C04_cleanup_removes_least_fixpoint : forall h g0 p k g', clean_up k h g0 p = Ok g' -> NoDup g0 ->
+  forall x, In x g' <-> In x g0 /\ ~ removed h g0 p x.
+Proof. exact clean_up_exact. Qed.
+Print Assumptions C04_cleanup_removes_least_fixpoint.
+
+(* ... which is what the round-based cleanup_set of the specification computes *)
+Theorem C04_cleanup_set_is_least_fixpoint : forall A p, NoDup (an A) ->
+  forall x, In x (cleanup_set A p) <-> aremoved A p x.
+Proof. exact cleanup_set_spec. Qed.
+Print Assumptions C04_cleanup_set_is_least_fixpoint.
+
+Theorem C04_disconnect_cleanup_refines_spec : forall h g p c h' g', WF h g -> In p g -> In c g ->
+  disconnect_nodes h g p c true = Ok (h', g') ->
+  a_eqb (abs h' g') (spec_disconnect_cleanup (abs h g) p c) = true.
+Proof. intros. apply a_eqb_iff. eapply disconnect_cleanup_refines; eauto. Qed.
+Print Assumptions C04_disconnect_cleanup_refines_spec.
+
+(* all operations: inside the domain the result denotes the graph the documented meaning yields *)
+Theorem C04_op_refines_spec_all : forall s o s', WF (fst s) (snd s) -> guard_b s o = true ->
+  spec_guard_b s o = true -> run_op s o = Ok s' ->
+  a_eqb (abs (fst s') (snd s')) (spec_op (universe (fst s)) (abs (fst s) (snd s)) o) = true.
+Proof. exact op_refines_spec_all. Qed.
+Print Assumptions C04_op_refines_spec_all.
+
+(* and the oracle holds_b is true on the model's own result for every operation *)
+Theorem C04_model_satisfies_holds_b_all : forall s o s', run_op s o = Ok s' ->
+  holds_b s o (OOk (fst s') (snd s')) = true.
+Proof. exact model_holds_all. Qed.
+Print Assumptions C04_model_satisfies_holds_b_all.
 
 (* the booleans the driver reads per observed step are agree and holds_b *)
 Theorem C04_check_is_agree_and_holds : forall s o ob, exists rest,
@@ -231,3 +283,14 @@ Example ex_refined :
   forallb refined_op [OAdd 5; ODelete 1 RNone; ODelete 1 RSingle; ODelete 0 RAll; ODelSub 1; OConnect 1 2;
                       ODisconnect 1 3 false] = true.
 Proof. reflexivity. Qed.
+
+(* the extra hypothesis of the update_node refinement is satisfiable, and a clean-up that removes
+   something: disconnecting 1 from 3 in the diamond removes exactly node 1 *)
+Example ex_refine_all :
+  spec_guard_b (ex_h, ex_g) (OUpdNode 1 5) = true /\
+  cleanup_set (spec_disconnect (abs ex_h ex_g) 1 3) 1 = [1] /\
+  match run_op (ex_h, ex_g) (OUpdNode 1 5) with
+  | Ok (h', g') => a_eqb (abs h' g') (spec_update_node (universe ex_h) (abs ex_h ex_g) 1 5) && (length g' =? 5)
+  | Raise _ => false
+  end = true.
+Proof. vm_compute. auto. Qed.
